@@ -13,6 +13,15 @@ NOTE_R = ("Mode R = IEEE specials over exact reals (no rounding/overflow/signed 
           "with instance axioms. Trusted: z3, the shim's model of NumPy element semantics, the oracles in /verif/spec and the harness. ")
 
 CHECKS = {
+    "C17": dict(
+        text="Bounded symbolic verification: formulas printed from generated expression trees (all ordered pairs of the 9 binary operators in "
+             "both tree shapes, unary operators against every binary operator, unary chains, all 34 registered functions at their arity, "
+             "seeded random trees; minimal and redundant parentheses; compact and wide spacing) are parsed by the real Function.create "
+             "and evaluated by the real Function.membership/Node.evaluate on symbolic variables (own variables, engine values, x; scalars "
+             "and arrays); the result must equal the documented meaning evaluated on the generating tree (SMT, functions as symbols named "
+             "after the documented function) and the real Node.postfix() evaluated by a reference stack machine must agree.",
+        note=NOTE_R + "Formula texts come from a bounded seeded grammar; rejection of ill-formed formulas is not claimed (arbitrary text: C16).",
+        ref="DESIGN.md §2 C17"),
     "C20": dict(
         text="Bounded symbolic exploration: setting values are opaque symbols whose truth value and mutual equality are symbolic booleans "
              "(so code that inspects a value forks and falsy / equal-to-current cases are covered); which of the 7 settings each nested "
